@@ -10,6 +10,29 @@ NOTE = ("trusted: clang 14 front end + CFG builder, cmake's compile database, th
         "The check decides the listed structural clauses only - see DESIGN.md section 5 'Not decided'.")
 
 CLAIMS = {
+    "C16": dict(
+        technique="sibling-table shape rules + instantiation census over the resolved call tree + type-level witnesses",
+        text="Static: the six comparison operators are as_tuple(x) OP as_tuple(y) with their own symbol and operand order; hash() is "
+             "lang::hash(as_tuple(*this)) on every path and the mix-in is stateless; for tuples of size 0..5 (and the variant used) the "
+             "instantiated call tree applies std::get<I>/get_if<I> for exactly I = 0..N-1 in order, each through hash() into "
+             "hash_combine_impl; pair/pointer/wrapper/hashable overloads delegate as specified; every scalar/string instantiation is "
+             "exactly std::hash<T>()(t); the combine step mixes a shifted seed. Collision frequency is not decided.",
+        ref="5/C16"),
+    "C19": dict(
+        technique="must-facts equivalence on the getenv test + constructor/deleter shape rules + call-order rule on the symbol lookup",
+        text="Static: both env::get overloads reach the default/raise under exactly `getenv(name.c_str()) == nullptr` and otherwise return "
+             "std::string of that pointer; both dl constructors build a shared_ptr<void> from dlopen with a lambda deleter that calls "
+             "dlclose on its argument under a non-null test, and raise dl::exception(dlerror(), ...) exactly when the handle is null; "
+             "dlclose appears nowhere else; symbol holds the shared_ptr by value from its parameter and dl::load passes the own handle; "
+             "the lookup is dlerror(); dlsym; dlerror() with the last result deciding; the exception stores the diagnostic.",
+        ref="5/C19"),
+    "C20": dict(
+        technique="type-level matrix (static_assert) + expression-shape rules on the adaptor patterns + storage scan",
+        text="Static: 26 type cells (aliasing reference types for lvalue ranges, owning adaptor types for rvalue/initializer-list/array "
+             "ranges, reverse iterator types) and 6 must-compile cells; the enumerating iterator starts at (begin, 0), ends at end, advances "
+             "iterator and index on every path, compares iterators only and pairs index_ with *it_; reverse is built on rbegin/rend (crbegin/"
+             "crend for owned ranges); owning adaptors hold only the container and take it by move; no static/thread_local storage.",
+        ref="5/C20"),
     "C05": dict(
         technique="type-level witnesses + ownership/typestate rules on the smart_stream CFGs + expression-shape rules for filters and fan-out",
         text="Static: a statement object is move-only with unique_ptr members and a complete move constructor; the destructor emits once "
